@@ -586,7 +586,82 @@ func c07Independence(c *Ctx) {
 	}
 }
 
+// c07Isolation: sequential isolation battery (cheap, runs in every case). Instances that look related - routers
+// made by one Group, two Hosts matchers, a Group's own not-found path next to its routers - share no mutable state.
+func c07Isolation(c *Ctx) {
+	bad := func(msg string, detail any) { c.Violate("instances are not isolated: "+msg, detail) }
+	// (1) interceptors given to one router of a group do not reach its siblings
+	env := mon.NewEnv()
+	env.RecordMW = false
+	g := env.NewGroup()
+	a := g.New("a", mux.NewPathVersion("", "a"), mux.WithInterceptor(ref.IsDigits, "digit"))
+	b := g.New("b", mux.NewPathVersion("", "b")) // here "digit" is an ordinary regexp: it matches the text "digit"
+	a.Handle("/n/{id:digit}", env.NewHnd(mon.KRoute, "/n/{id:digit}"), nil, "GET")
+	b.Handle("/n/{id:digit}", env.NewHnd(mon.KRoute, "/n/{id:digit}"), nil, "GET")
+	for _, t := range []struct {
+		r    *mux.Router[*mon.Hnd]
+		path string
+		want int
+	}{{a, "/n/123", 200}, {a, "/n/digit", 404}, {b, "/n/123", 404}, {b, "/n/digit", 200}} {
+		o := mon.Do(t.r, mon.Req{Method: "GET", Path: t.path})
+		c.Eval()
+		if o.Panicked || o.Status != t.want {
+			bad(fmt.Sprintf("router %q of a group answers GET %s with %d (panic %v), expected %d: an interceptor option of a sibling leaked", o.RouterName, t.path, o.Status, o.Panic, t.want), nil)
+			return
+		}
+	}
+	// a second sibling may declare the same interceptor name
+	if pv := guarded(func() { g.New("c", mux.NewPathVersion("", "c"), mux.WithInterceptor(ref.IsDigits, "digit")) }); pv != nil {
+		bad(fmt.Sprintf("a second router of the group cannot declare its own interceptor: %v", pv), nil)
+		return
+	}
+	// (2) two Hosts matchers: an interceptor registered on one is unknown to the other
+	h1, h2 := mux.NewHosts(false), mux.NewHosts(false)
+	h1.RegisterInterceptor(func(string) bool { return true }, "[0-9]+")
+	h1.Add("{id:[0-9]+}.example.com")
+	if pv := guarded(func() { h2.Add("{id:[0-9]+}.example.com") }); pv != nil {
+		bad(fmt.Sprintf("Hosts.Add on a second matcher panicked: %v", pv), nil)
+		return
+	}
+	ok1, _, _ := matchHost(h1, "abc.example.com")
+	ok2, _, _ := matchHost(h2, "abc.example.com")
+	c.Eval()
+	if !ok1 || ok2 {
+		bad(fmt.Sprintf("interceptor registered on one Hosts matcher: Match(abc.example.com) = %v on it, %v on the other (expected true, false)", ok1, ok2), nil)
+		return
+	}
+	if pv := guarded(func() { h2.RegisterInterceptor(func(string) bool { return false }, "[0-9]+") }); pv != nil {
+		bad(fmt.Sprintf("the same interceptor name cannot be registered on a second Hosts matcher: %v", pv), nil)
+		return
+	}
+	// (3) the group's own not-found path sees nothing of requests served before (pooled contexts are fully reset)
+	solo := env.NewRouter("shop")
+	solo.Handle("/items/{id}", env.NewHnd(mon.KRoute, "/items/{id}"), nil, "GET")
+	g2 := env.NewGroup()
+	g2.New("never", mux.NewHosts(false, "never.example.com"))
+	for i := 0; i < 8; i++ {
+		mon.Do(solo, mon.Req{Method: "GET", Path: "/items/5"})
+		o := mon.Do(g2, mon.Req{Method: "GET", Path: "/x", Host: "other.example.com"})
+		c.Eval()
+		if o.H == nil || o.H.Base.Kind != mon.KGroup404 || !o.NodeNil || len(o.Params) != 0 || o.RouterName != "" {
+			bad(fmt.Sprintf("group not-found handler sees router=%q node=%q params=%s left over from another request", o.RouterName, o.NodePattern, fmtParams(o.Params)), nil)
+			return
+		}
+		empty := env.NewGroup()
+		o = mon.Do(empty, mon.Req{Method: "GET", Path: "/x"})
+		if o.RouterName != "" || !o.NodeNil || len(o.Params) != 0 {
+			bad(fmt.Sprintf("empty group: not-found handler sees router=%q node=%q params=%s left over from another request", o.RouterName, o.NodePattern, fmtParams(o.Params)), nil)
+			return
+		}
+	}
+	c.Class("isolation_battery")
+}
+
 func runC07(c *Ctx) {
+	c07Isolation(c)
+	if c.Violated() {
+		return
+	}
 	switch c.Case % 3 {
 	case 0:
 		c07Parallel(c)
